@@ -12,6 +12,9 @@ type Ctx struct {
 	P    *load.Program
 	R    *report.Report
 	Tier string
+	// withWrappers makes reachClosure return synthetic wrappers (bound
+	// methods, thunks) too, for analyses that must follow values through them.
+	withWrappers bool
 }
 
 // Rule is the entry point of one property's rules.
